@@ -10,12 +10,25 @@ fn misc_ids<T: Elem>(s: &[T]) -> Vec<u64> {
     s.iter().map(|e| e.ident()).collect()
 }
 
+/// one of five callbacks that look at (and write through) their arguments
+macro_rules! value_cb {
+    ($w:expr, $f:expr, $retain:ident) => {
+        match $f {
+            0 => $w.dedup_by(|a, b| if a.0 == b.0 { b.1 += a.1; true } else { false }),
+            1 => $w.dedup_by(|a, b| a.0.abs_diff(b.0) <= 1),
+            2 => $w.dedup_by(|a, b| { b.1 += 1; a.0 + b.1 > 5 }),
+            3 => $w.dedup_by_key(|x| x.0 / 2),
+            _ => $w.$retain(|x| { x.1 += 10; x.0 % 2 == 0 }),
+        }
+    };
+}
+
 macro_rules! misc_with_settings {
     ($fname:ident, $S:ty, $sname:literal) => {
         fn $fname(ctx: &mut Ctx) {
             for len in 0..=6usize {
                 for spare in [0usize, 1, 4] {
-                    for which in 0..9u8 {
+                    for which in 0..10u8 {
                         ctx.next_id = 1;
                         zreset();
                         let _ = take_log();
@@ -173,6 +186,45 @@ macro_rules! misc_with_settings {
                                 drop(w);
                                 expect_drops.push(orig);
                                 expect_drops.extend_from_slice(&clones);
+                            }
+                            9 => {
+                                // callbacks that LOOK at their arguments and WRITE through them: `dedup_by` with std's
+                                // accumulate example and with a non-transitive predicate, `dedup_by_key`, `dedup`,
+                                // `retain` — on every owner, against `Vec`
+                                *ctx.op_hist.entry("dedup_by / dedup_by_key / dedup / retain (value-level callbacks)".to_string()).or_insert(0) += 1;
+                                drop(v);
+                                for round in 0..6u64 {
+                                    let n = len + (round as usize % 3) * 3;
+                                    let data: Vec<(u64, u64)> = (0..n).map(|_| (ctx.rng.below(4) + round % 2, 1 + ctx.rng.below(3))).collect();
+                                    for owner in 0..3u8 {
+                                        for f in 0..5u8 {
+                                            let mut sv = data.clone();
+                                            value_cb!(sv, f, retain_mut);
+                                            let got: Vec<(u64, u64)> = match owner {
+                                                0 => {
+                                                    let mut w = bump.alloc_slice_copy(&data);
+                                                    value_cb!(w, f, retain);
+                                                    w.to_vec()
+                                                }
+                                                1 => {
+                                                    let mut w: BumpVec<(u64, u64), &Bump<Global, $S>> = BumpVec::from_iter_in(data.iter().copied(), &bump);
+                                                    value_cb!(w, f, retain);
+                                                    w.to_vec()
+                                                }
+                                                _ => {
+                                                    let mut w: FixedBumpVec<(u64, u64)> = FixedBumpVec::with_capacity_in(n + 1, &bump);
+                                                    w.extend_from_slice_copy(&data);
+                                                    value_cb!(w, f, retain);
+                                                    w.to_vec()
+                                                }
+                                            };
+                                            ctx.oracle_checks += 1;
+                                            if got != sv {
+                                                ctx.oracle("C08", format!("{} owner {owner} callback {f} ({}) on {:?}: got {:?}, Vec gives {:?}", what("value-level callback"), ["dedup_by accumulate (writes through b)", "dedup_by |a-b|<=1 (non-transitive)", "dedup_by counting through b", "dedup_by_key", "retain_mut writing"][f as usize], data, got, sv));
+                                            }
+                                        }
+                                    }
+                                }
                             }
                             _ => {
                                 *ctx.op_hist.entry("extend_from_slice_copy / extend_from_within_copy / into_slice".to_string()).or_insert(0) += 1;
